@@ -7,7 +7,7 @@ requests
         → {"r":[ id | null …],"used":[…sorted],"pos":searchPos}      (one entry per script step)
   {"op":"fix","init":[[var,idx]…],"script":[["s",var]|["d",var]…]}
         → {"tables":[[[var,idx]…] …]}   (table after init, then after every step; dict order)
-  {"op":"hist","cfg":null|[b×6],"ops":[Op…]}
+  {"op":"hist","cfg":null|[b×7],"ops":[Op…]}
         → {"steps":[Obs…]}  one observation per operation
      Op   = ["newmap"] | ["ent",r,m,des,node,[solidRegs],[[var,idx]…]] | ["addent",r] | ["rment",r]
           | ["side",r,m,des] | ["solid",r,m,des,[sideRegs]] | ["addbrush",r] | ["rmbrush",r]
@@ -128,7 +128,8 @@ def cfgOf (j : Json) : Except String Cfg :=
     let a ← j.getArr?
     pure { removeEntDiscardsEntId := ← (a[0]!).getBool?, removeEntDiscardsNodeId := ← (a[1]!).getBool?,
            discardGuard := ← (a[2]!).getBool?, addEntAllocatesNode := ← (a[3]!).getBool?,
-           popReleasesNode := ← (a[4]!).getBool?, parseKeepsPlaceholder := ← (a[5]!).getBool? }
+           popReleasesNode := ← (a[4]!).getBool?, parseKeepsPlaceholder := ← (a[5]!).getBool?,
+           removeSpawnRaises := ← (a[6]!).getBool? }
 
 def handle (j : Json) : Except String Json := do
   let op ← j.getObjValAs? String "op"
